@@ -55,6 +55,17 @@ impl RngCore for RecRng {
   }
 }
 
+/// splice `len` consecutive candidates, starting at candidate `first`, that the field's
+/// rejection sampler must refuse (every candidate consumes three 64-bit words)
+pub fn rejection_run(r: &mut RecRng, first: usize, len: usize) {
+  for j in 0..len {
+    let base = 3 * (first + j);
+    r.splice.insert(base, u64::MAX - j as u64);
+    r.splice.insert(base + 1, u64::MAX);
+    r.splice.insert(base + 2, u64::MAX);
+  }
+}
+
 pub struct ReplayRng {
   words: Vec<u64>,
   pos: usize,
@@ -181,6 +192,12 @@ fn dealing(rec: &mut Rec, ctx: &Ctx, idx: u64, rng: &mut ChaCha20Rng) {
         }
       }
     }
+  }
+  // a run of out-of-range candidates (top limb odd, low limbs >= 12451: rejected by the sampler)
+  // in front of some coefficient: 1 .. 100 rejections in a row
+  if idx % 5 == 2 && n_coef_words > 0 {
+    rejection_run(&mut dealer_rng, rng.gen_range(0..(n_coef_words / 3).min(6)), *pick(rng, &[1usize, 5, 20, 21, 22, 40, 64, 100]));
+    rec.ev("rejection_run_streams");
   }
   rec.evals += 1;
   rec.ev("deal");
